@@ -123,3 +123,48 @@ def eval_ast(x, env, length):
             if eval_ast(cond, env, length): return eval_ast(val, env, length)
         return eval_ast(x[3], env, length)
     raise ValueError('index AST node outside the modelled shapes: %r' % (t,))
+
+
+def record_paramkeys(queries):
+    """run `queries` = [(src, params)] on a fresh SQLite database while SQLBuilder.make_composite_param is wrapped (in this process only)
+    -> [(src, [key item ...], [path item ...])] for every parameterised JSON path the real build_json_path registered:
+    key item / path item = ['P', n] (n = number of the external expression) | ['V', value] | ['E'] | ['N' or 'S']"""
+    from pony import orm
+    from pony.orm.sqlbuilding import SQLBuilder, Param, Value
+    db = orm.Database('sqlite', ':memory:')
+    class E(db.Entity):
+        j = orm.Optional(orm.Json)
+        a = orm.Optional(orm.IntArray)
+    db.generate_mapping(create_tables=True)
+    log = []
+    orig = SQLBuilder.make_composite_param
+    def wrapped(builder, paramkey, items, func):
+        log.append((paramkey, list(items)))
+        return orig(builder, paramkey, items, func)
+    SQLBuilder.make_composite_param = wrapped
+    out = []
+    try:
+        for src, params in queries:
+            del log[:]
+            g = dict(params); g['E'] = E
+            with orm.db_session:
+                orm.select(src, g)[:]
+            ids = {}
+            def pid(k): return ids.setdefault(repr(k), len(ids))
+            for paramkey, items in log:
+                path = []
+                for it in items:
+                    if isinstance(it, Param): path.append(['P', pid(it.paramkey)])
+                    elif it.value is Ellipsis: path.append(['E'])
+                    elif type(it.value) is slice: path.append(['S'])
+                    else: path.append(['V', it.value])
+                key = []
+                for k, it in zip(paramkey, items):
+                    if isinstance(it, Param): key.append(['P', pid(k)])
+                    elif k is None: key.append(['N'])
+                    elif k is Ellipsis: key.append(['E'])
+                    else: key.append(['V', k])
+                out.append((src, key, path))
+    finally:
+        SQLBuilder.make_composite_param = orig
+    return out
